@@ -11,6 +11,8 @@ use vcore::pool::Worker;
 use vcore::Stats;
 
 pub struct Slice {
+    /// when set, `bodies` are complete grammar texts (start rule `r`, and `top` if defined)
+    pub whole_grammars: bool,
     /// additional input characters beyond the frame's alphabet
     pub extra_alpha: Vec<char>,
     pub name: String,
@@ -91,7 +93,7 @@ pub fn for_each_grammar(slices: &[Slice], w: &mut Worker, stats: &mut Stats, mut
             let inputs = Rc::new(gram::inputs(&alpha, l));
             let mut first_in_frame = true;
             for body in sl.bodies.iter() {
-                let mut text = fr.text(body);
+                let mut text = if sl.whole_grammars { body.clone() } else { fr.text(body) };
                 if !sl.extra_rules.is_empty() {
                     text.push_str(&if fr.wide { gram::widen(sl.extra_rules) } else { sl.extra_rules.to_string() });
                 }
@@ -113,6 +115,12 @@ pub fn for_each_grammar(slices: &[Slice], w: &mut Worker, stats: &mut Stats, mut
                 let mut starts = starts;
                 if sl.extra_rules.contains("lit =") && is_first {
                     starts.push("lit".into());
+                }
+                if sl.whole_grammars {
+                    starts = vec!["r".to_string()];
+                    if text.contains("top = ") {
+                        starts.push("top".into());
+                    }
                 }
                 match prepare(&text, &format!("{}/{}", sl.name, fr.label()), inputs.clone(), starts) {
                     Prep::Rejected => stats.inc("grammars_rejected_by_pest"),
@@ -144,13 +152,14 @@ pub fn standard(quick: bool, scale: i32) -> Vec<Slice> {
         // size <= 3 in the union of the three coordinate planes of the frame cube, L = 4 (3 with 4 letters)
         let frames = gram::frames(false, true);
         let l = if scale < 0 { 3 } else { 4 };
-        v.push(Slice { extra_alpha: vec![], name: "size<=3".into(), frames, bodies: Rc::new(upto3), len: l, len4: 3, extra_rules: "" });
+        v.push(Slice { whole_grammars: false, extra_alpha: vec![], name: "size<=3".into(), frames, bodies: Rc::new(upto3), len: l, len4: 3, extra_rules: "" });
     } else {
-        v.push(Slice { extra_alpha: vec![], name: "size<=3/all-frames".into(), frames: gram::frames(true, true), bodies: Rc::new(upto3), len: 5, len4: 4, extra_rules: "" });
+        v.push(Slice { whole_grammars: false, extra_alpha: vec![], name: "size<=3/all-frames".into(), frames: gram::frames(true, true), bodies: Rc::new(upto3), len: 5, len4: 4, extra_rules: "" });
         let plain: Vec<Frame> = gram::frames(false, false).into_iter().filter(|f| (f.ws <= 1 && f.sdef == 0) || (f.ws == 0 && f.ty == 0)).collect();
-        v.push(Slice { extra_alpha: vec![], name: "size4/plain-frames".into(), frames: plain, bodies: Rc::new(by[4].clone()), len: 4, len4: 3, extra_rules: "" });
+        v.push(Slice { whole_grammars: false, extra_alpha: vec![], name: "size4/plain-frames".into(), frames: plain, bodies: Rc::new(by[4].clone()), len: 4, len4: 3, extra_rules: "" });
     }
     v.push(Slice {
+        whole_grammars: false,
         extra_alpha: vec![],
         name: "stack-transactions".into(),
         frames: gram::frames(false, false).into_iter().filter(|f| f.sdef == 0 && (f.ws == 0 || (f.ws == 1 && f.ty == 0)) && (!quick || f.ty == 0 || f.ty == 2)).collect(),
@@ -160,6 +169,7 @@ pub fn standard(quick: bool, scale: i32) -> Vec<Slice> {
         extra_rules: gram::STACK_TX_EXTRA_RULES,
     });
     v.push(Slice {
+        whole_grammars: false,
         extra_alpha: vec!['!'],
         name: "many-rules".into(),
         frames: gram::frames(false, false).into_iter().filter(|f| f.sdef == 0 && f.ws <= 1 && (f.ty == 0 || (!quick && f.ws == 0))).collect(),
@@ -168,8 +178,19 @@ pub fn standard(quick: bool, scale: i32) -> Vec<Slice> {
         len4: 3,
         extra_rules: gram::MANY_RULES_EXTRA,
     });
+    v.push(Slice {
+        whole_grammars: true,
+        extra_alpha: vec!['0', '1', 'z'],
+        name: "wide".into(),
+        frames: gram::frames(false, false).into_iter().filter(|f| f.sdef == 0 && f.ws == 0 && f.ty == 0).collect(),
+        bodies: Rc::new(gram::wide_grammars()),
+        len: 3,
+        len4: 3,
+        extra_rules: "",
+    });
     let redex: Vec<String> = gram::redex_bodies(if quick { 7 } else { gram::REDEX_TERMS.len() }).into_iter().map(|x| x.0).collect();
     v.push(Slice {
+        whole_grammars: false,
         extra_alpha: vec![],
         name: "redexes".into(),
         frames: gram::frames(!quick, false).into_iter().filter(|f| quick || f.sdef <= 2).collect(),
@@ -189,10 +210,11 @@ pub fn small(quick: bool) -> Vec<Slice> {
     let by = gram::bodies_by_size(&leaves, &unary, 3);
     let upto2: Vec<String> = by.iter().take(3).flatten().cloned().collect();
     let mut v = vec![];
-    v.push(Slice { extra_alpha: vec![], name: "size<=2/all-frames".into(), frames: gram::frames(true, true), bodies: Rc::new(upto2), len: if quick { 3 } else { 4 }, len4: 3, extra_rules: "" });
+    v.push(Slice { whole_grammars: false, extra_alpha: vec![], name: "size<=2/all-frames".into(), frames: gram::frames(true, true), bodies: Rc::new(upto2), len: if quick { 3 } else { 4 }, len4: 3, extra_rules: "" });
     let plain: Vec<Frame> = gram::frames(false, false).into_iter().filter(|f| (f.ws <= 1 && f.sdef == 0) || (f.ws == 0 && f.ty == 0) || !quick).collect();
-    v.push(Slice { extra_alpha: vec![], name: "size3/plain-frames".into(), frames: plain, bodies: Rc::new(by[3].clone()), len: if quick { 3 } else { 4 }, len4: 3, extra_rules: "" });
+    v.push(Slice { whole_grammars: false, extra_alpha: vec![], name: "size3/plain-frames".into(), frames: plain, bodies: Rc::new(by[3].clone()), len: if quick { 3 } else { 4 }, len4: 3, extra_rules: "" });
     v.push(Slice {
+        whole_grammars: false,
         extra_alpha: vec!['!'],
         name: "many-rules".into(),
         frames: gram::frames(false, false).into_iter().filter(|f| f.sdef == 0 && f.ws <= 1 && f.ty == 0).collect(),
@@ -202,6 +224,6 @@ pub fn small(quick: bool) -> Vec<Slice> {
         extra_rules: gram::MANY_RULES_EXTRA,
     });
     let redex: Vec<String> = gram::redex_bodies(if quick { 4 } else { 7 }).into_iter().map(|x| x.0).collect();
-    v.push(Slice { extra_alpha: vec![], name: "redexes".into(), frames: gram::frames(false, false).into_iter().filter(|f| !quick || f.sdef == 0).collect(), bodies: Rc::new(redex), len: if quick { 3 } else { 4 }, len4: 3, extra_rules: gram::REDEX_EXTRA_RULES });
+    v.push(Slice { whole_grammars: false, extra_alpha: vec![], name: "redexes".into(), frames: gram::frames(false, false).into_iter().filter(|f| !quick || f.sdef == 0).collect(), bodies: Rc::new(redex), len: if quick { 3 } else { 4 }, len4: 3, extra_rules: gram::REDEX_EXTRA_RULES });
     v
 }
